@@ -3,7 +3,9 @@ package types
 import (
 	"bytes"
 	"math/big"
+	"time"
 
+	"github.com/pokt-network/posmint/crypto"
 	sdk "github.com/pokt-network/posmint/types"
 	zz "github.com/pokt-network/posmint/zzverif"
 )
@@ -67,4 +69,28 @@ func VerifC20_BigEndian() {
 	zz.Assert("C20.bigendian.order", zz.BytesLess(bx, by) == (x < y))
 	zz.Assert("C20.bigendian.injective", zz.BytesEqual(bx, by) == (x == y))
 	zz.Reach("C20.bigendian")
+}
+
+// VerifC20_ValidatorJSON: a validator record (any status, jailed or not, symbolic address bytes, stake and unstaking
+// time) survives its custom JSON form (hex public key) unchanged.
+func VerifC20_ValidatorJSON() {
+	var pk crypto.Ed25519PublicKey
+	pk[0], pk[31] = 7, 9
+	v := Validator{
+		Address:                 sdk.Address(zz.Bytes("addr", sdk.AddrLen)),
+		PublicKey:               pk,
+		Jailed:                  zz.Bool("jailed"),
+		Status:                  []sdk.StakeStatus{sdk.Unstaked, sdk.Unstaking, sdk.Staked}[zz.Choice("status", 3)],
+		StakedTokens:            sdk.NewInt(zz.Int64("tokens", 0, 1<<62)),
+		UnstakingCompletionTime: time.Unix(zz.Int64("sec", 0, 4000000000), zz.Int64("nsec", 0, 999999999)).UTC(),
+	}
+	bz, err := v.MarshalJSON()
+	zz.Assert("C20.validator-json.marshal-ok", err == nil)
+	var w Validator
+	err = w.UnmarshalJSON(bz)
+	zz.Assert("C20.validator-json.unmarshal-ok", err == nil)
+	zz.Assert("C20.validator-json.roundtrip", zz.BytesEqual(w.Address, v.Address) && w.Jailed == v.Jailed && w.Status == v.Status &&
+		w.StakedTokens.Equal(v.StakedTokens) && w.UnstakingCompletionTime.Equal(v.UnstakingCompletionTime) &&
+		w.PublicKey != nil && w.PublicKey.RawString() == v.PublicKey.RawString())
+	zz.Reach("C20.validator-json.end")
 }
